@@ -74,6 +74,12 @@ class RealIndex:
         async def no_sleep(_secs):
             raise Retry()
         dbmod.sleep = no_sleep
+        # a World (virtual-time loop) run earlier in the same process rebinds these; this driver
+        # runs on an ordinary loop
+        import aiorpcx
+        dbmod.run_in_thread = aiorpcx.run_in_thread
+        bpmod.run_in_thread = aiorpcx.run_in_thread
+        asyncio.set_event_loop(loop())
 
     # -- lifecycle
     def open(self, keep_process=False):
